@@ -123,6 +123,33 @@ def parseLazy (st : LexSt) (src : List Char) : ParseOut :=
     | .error (.badnum _) => .unmodelled "number"
     | .error .fuel => .unmodelled "fuel"
 
+inductive PKind | ok | lex | syn | res | unm
+  deriving DecidableEq, Repr
+
+def ParseOut.kind : ParseOut → PKind
+  | .ok _ => .ok | .lexErr _ => .lex | .synErr _ _ => .syn | .resErr _ => .res | .unmodelled _ => .unm
+
+/-- does the text parse (from the initial lexer state) to exactly this tree? -/
+def parsesTo (src : String) (t : Op) : Bool :=
+  match parseLazy LexSt.init src.toList with
+  | .ok t' => t'.beq t
+  | _ => false
+
+/-- do two texts parse to the same tree? -/
+def sameTree (a b : String) : Bool :=
+  match parseLazy LexSt.init a.toList, parseLazy LexSt.init b.toList with
+  | .ok x, .ok y => x.beq y
+  | _, _ => false
+
+/-- kind of outcome and, for syntax errors, the message -/
+def outcome (src : String) : PKind × List Char :=
+  match parseLazy LexSt.init src.toList with
+  | .ok _ => (.ok, [])
+  | .lexErr c => (.lex, illegalMessage c)
+  | .synErr _ m => (.syn, m)
+  | .resErr m => (.res, m)
+  | .unmodelled _ => (.unm, [])
+
 def ParseOut.render : ParseOut → String
   | .ok t => "ok " ++ t.render
   | .lexErr c => "E lex " ++ hex (illegalMessage c)
